@@ -96,9 +96,9 @@ CLAIMED.update({
    text="Machine-checked Coq theorems: From<Euler> for Quaternion/Matrix3/Matrix4/Basis3 is the intrinsic X-then-Y-then-Z product Rx*Ry*Rz (any commutative ring with "
         "sin/cos oracle identities); over R, From<Quaternion> for Euler returns angles whose conversion back gives the same rotation (q or -q) on the regular branch, and on "
         "the two gimbal branches returns y = +-pi/2, z = 0 and an x that reproduces the rotation when the test value is exactly +-1/2; the threshold constants are checked "
-        "(0.499 < 1/2, unit test value range). The sampled-f64 bound (error < 0.13 near the threshold) is an executed predicate only: PARTIAL for that clause. " + TIE,
+        "(0.499 < 1/2, unit test value range). Inside both gimbal-lock cones the rotation rebuilt from the reported angles is within 0.13 of q's rotation in every matrix element (C07_gimbal_bound, over R, from exact identities for the four 2-vectors involved; the worst case is about 0.071); the same bound is also sampled natively in f64. " + TIE,
    note=NOTE + RAX + "Interval tactic used for numeric constants (its primitive-integer/float kernel primitives appear in Print Assumptions and are allowlisted by pattern). "
-        "PARTIAL: the near-threshold accuracy clause is sampled, not proved.",
+        "The 0.13 clause is a theorem over the reals (exact sin/cos/atan2); its native f64 counterpart is an executed predicate.",
    design="6 (C07)", technique="Coq proof (ring identities; real analysis over R with atan2/asin) + exact-rational correspondence with trig oracle and float fallback"),
  "C16": dict(
    text="Machine-checked Coq theorems over a polymorphic model of the memory layout: every array/tuple/mint conversion round-trips and lists the components in declaration "
